@@ -1,5 +1,5 @@
 PROP = dict(
-        pkg="c03", level="sampled",
+        pkg="c03", level="exploration",
         rule="C03: VNG write then read through the row reader, the vector cache + materializer, and projections, over generated sequences shaped for the encoder's statistics",
         assumptions=[
             "values come from the shared generators (valid per zed.Value.Validate, sets/maps normalised); unions containing the null type are explored only in the opt-in test TestVNGNullInUnion",
